@@ -41,14 +41,14 @@ def ensure_registered():
 
 
 # ---------------------------------------------------------------------------------------------- generation
-def gen_decl(rng, acc_name, fields, malformed=False):
+def gen_decl(rng, acc_name, fields, malformed=False, both_launch=False):
     """accfg.accelerator declaration with distinct random addresses. Returns (text, info)."""
     pool = rng.sample(range(0x3C0, 0x3C0 + 64), len(fields) + 4)
     pool = [a for a in pool if a != 0x3C5]        # keep clear of the hwpe clear register
     fmap = {f: pool[i] for i, f in enumerate(fields)}
     if malformed and len(fmap) > 1:
         del fmap[rng.choice(sorted(fmap))]           # a field the program configures is not declared
-    lnames = ["launch"] + (["launch_b"] if rng.random() < 0.5 else [])
+    lnames = ["launch"] + (["launch_b"] if (both_launch or rng.random() < 0.5) else [])
     if rng.random() < 0.3:
         lnames.reverse()
     lmap = {f: pool[len(fields) + i] for i, f in enumerate(lnames)}
@@ -106,6 +106,111 @@ def gen_program(rng, malformed=False, reset=False):
     mod.verify()
     info = dict(info, stage=stage, accs=[ren[a] for a in info["accs"]], malformed=malformed)
     return mod, info
+
+
+
+def hand_csr(rng):
+    """Hand-threaded programs stressing value plumbing: setups fed by several DISTINCT index-typed values (each
+    needs its own i32 cast), and scf.for / scf.if carrying the state together with several same-typed results
+    whose values reach later CSR writes (DeleteAllStates has to keep them in order)."""
+    ensure_registered()
+    acc = rng.choice(sorted(STYLE_OF))
+    ST = f'!accfg.state<"{acc}">'
+    flds = ["A", "B", "C", "D"]
+    def setup(out, frm, vals):
+        return (f'{out} = accfg.setup "{acc}" ' + (f"from {frm} " if frm else "") + "to (" +
+                ", ".join(f'"{f}" = {v} : {t}' for f, (v, t) in vals) + f") : {ST}")
+    def launch(t, s, lv):
+        if lv:
+            names = ", ".join(f'"{n}"' for n, _ in lv)
+            return (f'{t} = "accfg.launch"({", ".join(v for _, v in lv)}, {s}) <{{param_names = [{names}], accelerator = "{acc}"}}> : '
+                    f'({", ".join("i32" for _ in lv)}, {ST}) -> !accfg.token<"{acc}">')
+        return f'{t} = "accfg.launch"({s}) <{{param_names = [], accelerator = "{acc}"}}> : ({ST}) -> !accfg.token<"{acc}">'
+    def await_(t):
+        return f'"accfg.await"({t}) : (!accfg.token<"{acc}">) -> ()'
+    def lv():
+        r = rng.random()
+        if r < 0.3:
+            return []
+        if r < 0.6:
+            return [("launch", rng.choice(["%a", "%b"]))]
+        two = [("launch", "%a"), ("launch_b", "%b")]
+        rng.shuffle(two)
+        return two
+    ints = [("%a", "i32"), ("%b", "i32")]
+    idxs = [("%p", "index"), ("%q", "index"), ("%r", "index")]
+    L = []
+    pool = ints + idxs
+    vals0 = list(zip(flds, [rng.choice(idxs), rng.choice(idxs), rng.choice(pool), rng.choice(pool)]))
+    rng.shuffle(vals0)
+    L.append("  " + setup("%s0", None, vals0[:rng.choice([2, 3, 4])]))
+    L += ["  " + launch("%t0", "%s0", lv()), "  " + await_("%t0")]
+    kind = rng.choice(["for", "if", "for", "if", "both"])
+    n_int = rng.choice([2, 2, 3])
+    carried_t = ["i32"] * n_int + (["index"] if rng.random() < 0.4 else [])
+    pos = rng.randrange(len(carried_t) + 1)          # where the state sits among the results
+    cur_state = "%s0"
+    fin = []
+    if kind in ("for", "both"):
+        inits = [rng.choice(["%a", "%b"]) if t == "i32" else rng.choice(["%p", "%q"]) for t in carried_t]
+        args = [f"%x{j}" for j in range(len(carried_t))]
+        ia = [f"{x} = {i}" for x, i in zip(args, inits)]
+        ia.insert(pos, f"%sl = {cur_state}")
+        tys = list(carried_t)
+        tys.insert(pos, ST)
+        L.append(f"  %fr:{len(tys)} = scf.for %i = %lb to %ub step %st iter_args({', '.join(ia)}) -> ({', '.join(tys)}) {{")
+        body_vals = [("%i", "index")] + list(zip(args, carried_t))
+        rng.shuffle(body_vals)
+        B = [setup("%sb", "%sl", list(zip(flds, body_vals[:rng.choice([2, 3])]))),
+             launch("%tb", "%sb", lv()), await_("%tb")]
+        ys = []
+        for j, (x, t) in enumerate(zip(args, carried_t)):
+            if t == "i32":
+                B.append(f"%y{j} = arith.{rng.choice(['addi', 'muli', 'subi'])} {x}, {rng.choice(['%a', '%b', x])} : i32")
+            else:
+                B.append(f"%y{j} = arith.addi {x}, %i : index")
+            ys.append(f"%y{j}")
+        if rng.random() < 0.3 and n_int >= 2:
+            ys[0], ys[1] = ys[1], ys[0]               # values rotate through the iter_args
+        ys.insert(pos, "%sb")
+        B.append(f"scf.yield {', '.join(ys)} : {', '.join(tys)}")
+        L += ["    " + b for b in B]
+        L.append("  }")
+        res = [f"%fr#{k}" for k in range(len(tys))]
+        cur_state = res.pop(pos)
+        fin = list(zip(res, carried_t))
+    if kind in ("if", "both"):
+        src = fin if fin else [(rng.choice(["%a", "%b"]), "i32") for _ in range(n_int)]
+        tys = [t for _, t in src]
+        p2 = rng.randrange(len(tys) + 1)
+        tys2 = list(tys)
+        tys2.insert(p2, ST)
+        L.append(f"  %ir:{len(tys2)} = scf.if %c -> ({', '.join(tys2)}) {{")
+        tv = [v for v, _ in src]
+        L.append("    " + setup("%sti", cur_state, [("A", (tv[0], tys[0]))]))
+        y1 = [f"%e{j}" for j in range(len(tys))]
+        for j, (v, t) in enumerate(src):
+            L.append(f"    %e{j} = arith.addi {v}, {v} : {t}")
+        yy = list(y1)
+        yy.insert(p2, "%sti")
+        L.append(f"    scf.yield {', '.join(yy)} : {', '.join(tys2)}")
+        L.append("  } else {")
+        ev = list(reversed(tv)) if all(t == tys[0] for t in tys) else list(tv)
+        ey = list(ev)
+        ey.insert(p2, cur_state)
+        L.append(f"    scf.yield {', '.join(ey)} : {', '.join(tys2)}")
+        L.append("  }")
+        res = [f"%ir#{k}" for k in range(len(tys2))]
+        cur_state = res.pop(p2)
+        fin = list(zip(res, tys))
+    use = list(zip(flds, fin + [rng.choice(idxs)]))
+    L.append("  " + setup("%sf", cur_state, use))
+    L += ["  " + launch("%tf", "%sf", lv()), "  " + await_("%tf")]
+    nf = 4
+    decl = gen_decl(rng, acc, flds, both_launch=True)
+    text = ("builtin.module {\n" + decl + "\n  func.func @f(%a : i32, %b : i32, %p : index, %q : index, %r : index, "
+            "%lb : index, %ub : index, %st : index, %c : i1) {\n" + "\n".join(L) + "\n    func.return\n  }\n}\n")
+    return text, ["val", "val", "val", "val", "val", "lb", "ub", "step", "cond"], f"hand:{kind}"
 
 
 FIXED = [
@@ -248,7 +353,10 @@ def read_cval(v, hn: HintNames):
     if c is not None:
         return ["const", c]
     if isinstance(v, OpResult) and isinstance(v.op, arith.IndexCastOp):
-        return read_cval(v.op.operands[0], hn)
+        src = v.op.operands[0]
+        if hn.known(src):
+            return ["cast", hn.val(src)]       # the i32 cast the lowering puts in front of an index-typed value
+        return read_cval(src, hn)
     raise Unreadable(f"csr operand {v} is neither a source value, a constant nor an index_cast of one")
 
 
@@ -366,7 +474,7 @@ def cstmt_to_coq(s):
     nl = lambda xs: coqlist(_n(x) for x in xs)
     if o == "write":
         v = s["val"]
-        return f"CWrite {zlit(s['addr'])} " + (f"(VRef {_n(v[1])})" if v[0] == "ref" else f"(VConst {zlit(v[1])})")
+        return f"CWrite {zlit(s['addr'])} " + {"ref": f"(VRef {_n(v[1])})", "cast": f"(VCast {_n(v[1])})"}.get(v[0], f"(VConst {zlit(v[1])})")
     if o == "poll":
         return f"CPoll {zlit(s['addr'])} {zlit(s['shift'])} {zlit(s['cmp'])}"
     if o == "pure":
@@ -418,8 +526,10 @@ def lower_case(mod, param_kinds):
     assert list(progs) == ["f"], list(progs)
     decl = read_amap(mod, names)
     hn = HintNames(names)
+    from xdsl.dialects.builtin import IndexType
+    idx = sorted(i for v, i in names.vals.items() if isinstance(v.type, IndexType))
     case = {"before_text": before_text, "prog": progs["f"], "decl": decl, "kinds": param_kinds,
-            "names": names, "has_reset": "accfg.reset" in before_text}
+            "names": names, "has_reset": "accfg.reset" in before_text, "idx": idx}
     try:
         ConvertAccfgToCsrPass().apply(accir.xctx(), mod)
     except Exception as e:
@@ -454,6 +564,16 @@ def make_cases(ctx, n):
     tries = 0
     while len(cases) < n + len(FIXED) and tries < 5 * n:
         tries += 1
+        if rng.random() < 0.4:
+            try:
+                text, kinds, origin = hand_csr(rng)
+                c = lower_case(accir.parse(text), kinds)
+            except Exception as e:
+                ctx.notes.append(f"hand generator failed: {type(e).__name__}: {str(e)[:200]}")
+                continue
+            c["origin"] = origin
+            cases.append(c)
+            continue
         malformed = rng.random() < 0.08
         reset = (not malformed) and rng.random() < 0.06
         try:
@@ -490,17 +610,19 @@ def eval_cases(ctx, cases, with_l1=True):
             p = accir.to_coq(c["prog"])
             if "after" in c:
                 rb = cblock_to_coq(c["after"])
-                l1.append((i, f"({am}, {p}, Some {rb})"))
+                ix = coqlist(_n(x) for x in c["idx"])
+                l1.append((i, f"({am}, {ix}, {p}, Some {rb})"))
                 ins = [gen_inputs(rng, c["kinds"], st) for st in ("zero", "one", "many", None, None)]
                 c["inputs"] = ins
                 for j, a in enumerate(ins):
                     l2.append(((i, j), f"({am}, {p}, {rb}, {accir.zlist(a)}, {zlit(j + 1)})"))
             else:
-                l1.append((i, f"({am}, {p}, None)"))
+                ix = coqlist(_n(x) for x in c["idx"])
+                l1.append((i, f"({am}, {ix}, {p}, None)"))
         t = PRELUDE
-        t += f"Definition l1 : list (amapT * prog * option cblock) := {coqlist(x for _, x in l1)}.\n"
-        t += ("Eval vm_compute in failing (fun c => match c with (am, p, rb) => "
-              "ocblock_eqb (lower_block am (p_body p)) rb end) l1.\n")
+        t += f"Definition l1 : list (amapT * list nat * prog * option cblock) := {coqlist(x for _, x in l1)}.\n"
+        t += ("Eval vm_compute in failing (fun c : amapT * list nat * prog * option cblock => match c with (am, ix, p, rb) => "
+              "ocblock_eqb (lower_block am ix (p_body p)) rb end) l1.\n")
         t += f"Definition l2 : list (amapT * prog * cblock * list Z * Z) := {coqlist(x for _, x in l2)}.\n"
         t += ("Eval vm_compute in failing (fun c => match c with (am, p, rb, args, seed) => "
               "let co := test_coracle seed in "
@@ -616,7 +738,7 @@ def replay(ctx, f):
                        f"Definition co := test_coracle {zlit(seed)}.\n"
                        f"Eval vm_compute in (expand am (co_busy co) 0%nat (frun (co_orc co) p {accir.zlist(args)})).\n"
                        f"Eval vm_compute in (crun co (p_params p) rb {accir.zlist(args)}).\n"
-                       f"Eval vm_compute in (ocblock_eqb (lower_block am (p_body p)) (Some rb)).\n")
+                       f"Eval vm_compute in (ocblock_eqb (lower_block am {coqlist(_n(x) for x in c['idx'])} (p_body p)) (Some rb)).\n")
         ok, out = vlib.coq_eval("c04replay", t)
         print("--- expected CSR trace / CSR trace of the real output / model agrees with real output:\n" + out[-3000:])
         bad = bad or ("= false" in out) or not ok
